@@ -20,7 +20,10 @@ _PUSH_BOUNDS = ("STEP lemma: every int (34) / float (18) / bool (13) instruction
                 "with both operands from a 9-entry table of special values (thorough: full width, cap 25 min).  Print/PrintLn of i64/f64/bool with the operand from a concrete table "
                 "(0, -1, 42, MIN, MAX; 1.5, inf, NaN, -0.0; true, false), PrintString/PrintSpace/PrintNewline/PrintPeriod.  Exec instructions (generic Pop/Push/Dup/IsEmpty/StackDepth, Noop, "
                 "DupBlock, When, Unless, IfElse) against their documented action tables on exec stacks of 0..=2 distinct sentinel programs (thorough: Swap, Flush, deeper stacks, "
-                "one-element blocks) with symbolic conditions and maxima.  Thorough only: DISPATCH through PushInstruction / PushProgram on a builder-made PushState and input variables")
+                "one-element blocks) with symbolic conditions and maxima.  BLOCK lemma on a builder-made PushState: a block of 0/2/3 sentinels unfolds in order onto an exec stack holding one "
+                "entry or is a fatal overflow that leaves the state unchanged (4 instances).  LOOP lemma (bin/mirloop, z3 on the MIR of run_to_completion): at most LIMIT steps for a symbolic "
+                "LIMIT, front-to-back order, the performed entry removed, carried state after a recoverable error, a fatal error ends the run, exit only on empty exec / limit; exec depth 0..=3, "
+                "<= 4 steps per path, the step itself fully nondeterministic.  Thorough only: DISPATCH through PushInstruction / PushProgram on a builder-made PushState and input variables")
 _PUSH_OUTSIDE = ("whole-program runs as one query: the claim is compositional -- STEP lemma (Kani/CBMC) + LOOP lemma (symbolic execution of the MIR of run_to_completion with z3: at most LIMIT "
                  "calls, front-to-back order, performed entry removed, carried state after a recoverable error, fatal error ends the run, exit only on empty exec / limit; initial exec depth <= 3, "
                  "<= 4 calls per path, callees modelled as listed in the evidence) + BLOCK/DISPATCH (thorough tier); the induction joining them is on paper; stacks deeper than 3 before the step "
@@ -52,14 +55,14 @@ for _pid, _a, _what in (("C01", "a01", "outcome, stacks and output equal the ref
         "unwindset_by_harness": [
             ("^c01_t_exec_.*_nested$", [(r"drop_glueNtNtNt\w+_4push7push_vm7program11PushProgramE", 2), (r"^_RNvX\w*7programNt\w+11PushProgramNt\w+5clone5Clone5clone", 2),
                                         (r"drop_glueSNtNtNt\w+_4push7push_vm7program11PushProgramE", 2)]),
-            ("^c01_t_(dispatch|loop|block)_", [(r"drop_glueNtNtNt\w+_4push7push_vm7program11PushProgramE", 1), (r"^_RNvX\w*7programNt\w+11PushProgramNt\w+5clone5Clone5clone", 1),
+            ("^c01_(t_dispatch|block)_", [(r"drop_glueNtNtNt\w+_4push7push_vm7program11PushProgramE", 1), (r"^_RNvX\w*7programNt\w+11PushProgramNt\w+5clone5Clone5clone", 1),
                                 (r"drop_glueSNtNtNt\w+_4push7push_vm7program11PushProgramE", 1)]),
             ("^c01_exec_", [(r"drop_glueNtNtNt\w+_4push7push_vm7program11PushProgramE", 1), (r"^_RNvX\w*7programNt\w+11PushProgramNt\w+5clone5Clone5clone", 1),
                             (r"drop_glueSNtNtNt\w+_4push7push_vm7program11PushProgramE", 1)]),
         ],
-        "caps_by_harness": [("power", (600, 12)), ("^c01_t_exec_", (1500, 14)), ("^c01_t_(dispatch|loop|block)_", (1500, 14))],
+        "caps_by_harness": [("power", (600, 12)), ("^c01_t_exec_", (1500, 14)), ("^c01_t_dispatch_", (1500, 14))],
         # exec harnesses with >= 2 programs need 4-8 GB each: at most 4 side by side
-        "weight_by_harness": [("^c01_t_exec_", 6), ("^c01_t_(dispatch|loop|block)_", 4), ("_swap_d[23]$", 2), ("^c01_exec_(if_else_e2|push_empty)", 2)],
+        "weight_by_harness": [("^c01_t_exec_", 6), ("^c01_t_dispatch_", 4), ("_swap_d[23]$", 2), ("^c01_exec_(if_else_e2|push_empty)", 2)],
     }
 
 PROPS["C04"] = {
